@@ -565,7 +565,14 @@ class Interp:
         return None
 
     def block(self, body, env):
-        for st in body:
+        for k, st in enumerate(body):
+            # `if ok: <compute; return>` followed only by a raise is the
+            # same validity guard as `if not ok: raise` + compute
+            if isinstance(st, ast.If) and not st.orelse \
+                    and bool(st.body) and isinstance(
+                        st.body[-1], (ast.Return, ast.Raise)) \
+                    and self.only_raises(body[k + 1:]):
+                self.__dict__.setdefault("guard_tail", set()).add(id(st))
             r = self.stmt(st, env)
             if r is not None:
                 return r
@@ -650,7 +657,8 @@ class Interp:
                 # a run-time validity guard: one arm only raises -> the
                 # analysis follows the other arm (valid input assumed)
                 b_r, o_r = self.only_raises(st.body), \
-                    self.only_raises(st.orelse)
+                    self.only_raises(st.orelse) or id(st) in getattr(
+                        self, "guard_tail", ())
                 if b_r and not o_r:
                     return self.block(st.orelse, env)
                 if o_r and not b_r:
@@ -787,6 +795,26 @@ class Interp:
                           v, (AArr, AScal, AObj)) else None))
         elif isinstance(t, (ast.Tuple, ast.List)):
             vals = list(v) if isinstance(v, (tuple, list)) else None
+            if vals is None and isinstance(v, AArr) and not isinstance(
+                    v, AIdx) and not any(isinstance(x, ast.Starred)
+                                         for x in t.elts):
+                # unpacking an array iterates over its first axis
+                if not v.shape:
+                    raise ShapeError("unpacking a 0-d array")
+                n0 = v.shape[0]
+                if isinstance(n0, int) and n0 != len(t.elts):
+                    raise ShapeError(
+                        f"unpacking an array whose first axis has {n0} "
+                        f"entries into {len(t.elts)} names")
+                if not isinstance(n0, int):
+                    raise ShapeError(
+                        f"unpacking an array whose first axis is a composite "
+                        f"axis (size {n0}) into {len(t.elts)} names: "
+                        "ValueError unless that axis happens to have that "
+                        "size")
+                rest = v.shape[1:]
+                vals = [AArr(rest, getattr(v, "hom", None)) if rest
+                        else ANpScal() for _ in t.elts]
             if vals is None or len(vals) != len(t.elts):
                 raise Unsupported("tuple unpacking mismatch")
             for el, x in zip(t.elts, vals):
@@ -958,6 +986,11 @@ class Interp:
                         ast.unparse(d) == "property"
                         for d in m.decorator_list):
                     return self.call_node(m, [v])
+                if m is not None:
+                    return ABound(v, e.attr)      # a bound method as a value
+                if not self._surely_no_attr(v, e.attr):
+                    raise Unsupported(f"instance attribute {e.attr} is not "
+                                      "modelled")
                 raise AttributeErrorSim(e.attr)
             if isinstance(v, (AArr, AScal)) and e.attr == "dtype":
                 return "<dtype>"
@@ -1188,6 +1221,31 @@ class Interp:
 
     def _prefix_of(self, rel):
         return self.rel_prefix.get(rel, "")
+
+    def _surely_no_attr(self, obj, name):
+        """No class of obj's MRO defines `name` at class level or ever
+        assigns `self.<name>` (then reading it is an AttributeError at run
+        time); dunder attributes and objects of unknown class are never
+        'surely absent'."""
+        if name.startswith("__") or obj.cls is None or self.project is None:
+            return False
+        for k in self.project.mro(obj.cls):
+            for n in ast.walk(k.node):
+                if isinstance(n, ast.Attribute) and n.attr == name \
+                        and isinstance(n.ctx, (ast.Store, ast.Del)):
+                    return False
+                if isinstance(n, ast.Call) and isinstance(n.func, ast.Name) \
+                        and n.func.id == "setattr":
+                    return False
+            for st in k.node.body:
+                if isinstance(st, ast.Assign) and any(
+                        isinstance(t, ast.Name) and t.id == name
+                        for t in st.targets):
+                    return False
+                if isinstance(st, ast.AnnAssign) and isinstance(
+                        st.target, ast.Name) and st.target.id == name:
+                    return False
+        return True
 
     def obj_method(self, obj, name, args, kw):
         if name == "set":
